@@ -68,6 +68,7 @@ def _directly_asserted_variables(test_case: tc.TestCase) -> set[str]:
         The set of directly asserted variable names.
     """
     protected: set[str] = set()
+    bound = {s.bound_variable for s in test_case.statements() if s.bound_variable is not None}
     for statement in test_case.statements():
         for assertion in statement.assertions:
             if isinstance(assertion, ExceptionAssertion):
@@ -78,7 +79,29 @@ def _directly_asserted_variables(test_case: tc.TestCase) -> set[str]:
                 # attribute path rooted at it (e.g. ``var_0.balance``): protect the root.
                 if isinstance(source, str):
                     protected.add(source.split(".", 1)[0])
+        if _carries_reference_assertion(statement):
+            # An assertion may be attached to a later statement than the one binding its
+            # source (``var_1 = f(var_0)`` followed by ``assert var_0.x == ...``).  Removing
+            # that statement removes the assertion: keep it and everything it reads.
+            if statement.bound_variable is not None:
+                protected.add(statement.bound_variable)
+            protected.update(statement.used_variables() & bound)
     return protected
+
+
+def _carries_reference_assertion(statement: tc.Statement) -> bool:
+    """Is a reference assertion attached to (rendered after) the statement?
+
+    Args:
+        statement: The statement to inspect.
+
+    Returns:
+        True, if removing the statement would also remove a reference assertion.
+    """
+    return any(
+        isinstance(assertion, ReferenceAssertion) and isinstance(assertion.source, str)
+        for assertion in statement.assertions
+    )
 
 
 def _add_backward_dependencies(test_case: tc.TestCase, protected: set[str]) -> None:
@@ -299,7 +322,7 @@ class ForwardIterativeMinimizationVisitor(IterativeMinimizationVisitor):
             i = 0
             while i < test_case.size():
                 statement = test_case.get_statement(i)
-                if statement.bound_variable in protected:
+                if statement.bound_variable in protected or _carries_reference_assertion(statement):
                     i += 1
                     continue
                 test_clone = test_case.clone()
@@ -332,7 +355,7 @@ class BackwardIterativeMinimizationVisitor(IterativeMinimizationVisitor):
             i = test_case.size() - 1
             while i >= 0:
                 statement = test_case.get_statement(i)
-                if statement.bound_variable in protected:
+                if statement.bound_variable in protected or _carries_reference_assertion(statement):
                     i -= 1
                     continue
                 test_clone = test_case.clone()
@@ -511,7 +534,10 @@ class CombinedMinimizationVisitor(cv.ChromosomeVisitor):
                 protected = get_assertion_protected_variables(test_case)
                 i = 0
                 while i < test_case.size():
-                    if test_case.get_statement(i).bound_variable in protected:
+                    statement = test_case.get_statement(i)
+                    if statement.bound_variable in protected or _carries_reference_assertion(
+                        statement
+                    ):
                         i += 1
                         continue
                     test_suite_clone = chromosome.clone()
